@@ -5,7 +5,7 @@
     newcomer's (C13_unsync_admission: [p.*1.*1 = take (length p) (lru_keys s1)]); and the LRU
     order is the recency order of the history: insert, update and successful get move the key
     to the most-recently-used end, nothing else reorders. *)
-From MM Require Import Unsync.UInvDefs Unsync.UInv Unsync.UPolicyDefs Unsync.UPolicy.
+From MM Require Import Unsync.UInvDefs Unsync.UInv Unsync.UPolicyDefs Unsync.UPolicy Sync.SInvDefs Sync.SPolicyDefs Sync.SPolicy.
 
 Theorem C12_unsync_eviction_is_shortest_lru_prefix : forall c s s',
   cfg_ok c -> WF' c s -> small s -> evict_lru_entries c s = Ok s' ->
@@ -67,6 +67,44 @@ Theorem C12_unsync_invalidate_keeps_order : forall c s now k s1 ts s',
   view s' = delete k (view s1) /\ lru_keys s' = List.filter (fun x => negb (x =? k)) (lru_keys s1).
 Proof. exact u_invalidate_exact. Qed.
 
+(** concurrent cache (maintenance after every operation): size eviction of a maintenance run on a
+    state with nothing queued removes the shortest LRU prefix covering the excess (or a batch);
+    admission victims of a pending fresh insert are the shortest LRU prefix reaching its weight *)
+Theorem C12_sync_eviction_is_shortest_lru_prefix : forall c s to_evict s',
+  scfg_ok c -> SInv c s -> quiescent s ->
+  s_evict_lru_loop batch_s s to_evict 0 = Ok s' ->
+  exists n, s_lru_keys s' = drop n (s_lru_keys s) /\
+            s_view s' = delete_keys (take n (s_lru_keys s)) (s_view s) /\
+            s_ws s' + sum_w (take n (s_lru_triples s)) = s_ws s /\
+            (n = 0%nat \/ sum_w (take (n - 1) (s_lru_triples s)) < to_evict) /\
+            (to_evict <= sum_w (take n (s_lru_triples s)) \/ n = batch_s \/ n = length (s_lru_keys s)).
+Proof. exact s_evict_lru_prefix. Qed.
+Theorem C12_sync_admission_victims_are_lru_prefix : forall c s k ve w s',
+  scfg_ok c -> SInv c s -> s_small s -> pending_insert c s k ve w ->
+  apply_writes c s 1 = Ok s' ->
+  SInv c s' /\ quiescent s' /\
+  match sc_cap c with
+  | None =>
+      s_view s' = s_view s /\ s_lru_keys s' = s_lru_keys s ++ [k] /\ s_ws s' = s_ws s + w
+  | Some cap =>
+    if s_ws s + w <=? cap then
+      s_view s' = s_view s /\ s_lru_keys s' = s_lru_keys s ++ [k] /\ s_ws s' = s_ws s + w
+    else if cap <? w then
+      s_view s' = delete k (s_view s) /\ s_prob s' = s_prob s /\ s_wo s' = s_wo s /\ s_ws s' = s_ws s
+    else match tinylfu_victims (s_lru_triples s) w (frequency (s_sk s) (sc_hash c k)) with
+         | Some p =>
+             s_view s' = delete_keys (p.*1.*1) (s_view s) /\
+             s_lru_keys s' = drop (length p) (s_lru_keys s) ++ [k] /\
+             p.*1.*1 = take (length p) (s_lru_keys s) /\
+             s_ws s' + sum_w p = s_ws s + w
+         | None =>
+             s_view s' = delete k (s_view s) /\ s_prob s' = s_prob s /\ s_wo s' = s_wo s /\ s_ws s' = s_ws s
+         end
+  end.
+Proof. exact s_pending_insert_outcome. Qed.
+
+Print Assumptions C12_sync_eviction_is_shortest_lru_prefix.
+Print Assumptions C12_sync_admission_victims_are_lru_prefix.
 Print Assumptions C12_unsync_eviction_is_shortest_lru_prefix.
 Print Assumptions C12_unsync_admission_victims_are_lru_prefix.
 Print Assumptions C12_unsync_get_recency.
